@@ -740,14 +740,17 @@ class _Simu(_IObserver, _params.Updatable, ABC):
             coord_e_pg = groupElem.Get_GaussCoordinates_e_pg(matrixType)
             wJ_e_pg = groupElem.Get_weightedJacobian_e_pg(matrixType)
             rho_e_pg = FeArray.broadcast(self.rho, *wJ_e_pg.shape[:2])
-            contrib = (rho_e_pg * wJ_e_pg * coord_e_pg / mass).sum()
+            # summed over the elements and the integration points, component by component
+            contrib = np.asarray(rho_e_pg * wJ_e_pg * coord_e_pg / mass).sum(axis=(0, 1))
             if self.dim == 2:
                 contrib *= self.model.thickness
             center += contrib
 
         if not isinstance(self.rho, np.ndarray):
-            diff = np.linalg.norm(center - self.mesh.center) / np.linalg.norm(center)
-            assert diff <= 1e-12
+            # a homogeneous body: the center of mass is the centroid (absolute test for a body centred at the origin)
+            meshCenter = self.mesh.center
+            diff = np.linalg.norm(center - meshCenter)
+            assert diff <= 1e-12 * max(1.0, np.linalg.norm(meshCenter))
 
         return center
 
